@@ -15,6 +15,14 @@ use std::time::Instant;
 
 pub const DEFAULT_SEED: u64 = 20260922;
 
+thread_local! {
+    pub static LAST_PANIC: std::cell::RefCell<String> = const { std::cell::RefCell::new(String::new()) };
+}
+
+pub fn last_panic() -> String {
+    LAST_PANIC.with(|p| p.borrow().clone())
+}
+
 #[derive(Clone, Debug, Serialize, Deserialize)]
 pub struct Replay {
     pub property: String,
@@ -22,14 +30,31 @@ pub struct Replay {
     pub seed: u64,
     pub run: u64,
     pub plan: Plan,
-    pub crash: Option<CrashPoint>,
+    #[serde(default)]
+    pub extra: Extra,
     pub expect: Viol,
+}
+
+#[derive(Clone, Debug, Serialize, Deserialize, PartialEq, Default)]
+pub enum Extra {
+    #[default]
+    None,
+    Crash(CrashPoint),
+    Fault(FaultCase),
+}
+
+#[derive(Clone, Debug, Serialize, Deserialize, PartialEq)]
+pub struct FaultCase {
+    pub fault: crate::disk::Fault,
+    /// state of the surviving storage when the database is dropped afterwards
+    pub choice: crate::disk::CrashChoice,
 }
 
 #[derive(Clone, Copy, PartialEq, Eq, Debug)]
 pub enum Engine {
     Conf,
     Crash,
+    Fault,
 }
 
 #[derive(Default, Clone, Serialize)]
@@ -96,7 +121,7 @@ fn add_crash(a: &mut CrashStats, b: &CrashStats) {
 }
 
 pub struct RunOut {
-    pub viol: Option<(Viol, Option<CrashPoint>)>,
+    pub viol: Option<(Viol, Extra)>,
     pub exec: ExecStats,
     pub disk: crate::disk::Stats,
     pub crash: CrashStats,
@@ -124,7 +149,10 @@ pub fn plan_for(seed: u64, run: u64, prop: &str) -> Plan {
 }
 
 /// Execute one plan under an engine. `only`: evaluate just this crash point (replay).
-pub fn execute(plan: &Plan, engine: Engine, crash_seed: u64, images: usize, only: Option<&CrashPoint>) -> RunOut {
+pub fn execute(plan: &Plan, engine: Engine, crash_seed: u64, images: usize, only: Option<&Extra>) -> RunOut {
+    if engine == Engine::Fault {
+        return execute_fault(plan, crash_seed, images, only);
+    }
     let mut ex = Exec::new(plan.cfg.clone(), Mode::Strict);
     ex.keep_lifetimes = engine == Engine::Crash;
     let r = catch_unwind(AssertUnwindSafe(|| {
@@ -143,16 +171,17 @@ pub fn execute(plan: &Plan, engine: Engine, crash_seed: u64, images: usize, only
     };
     if r.is_err() {
         out.harness_panic = true;
-        out.viol = Some((Viol { prop: "C08".into(), tag: "panic".into(), detail: "panic escaped an API call during the run".into() }, None));
+        out.viol = Some((Viol { prop: "C08".into(), tag: "panic".into(), detail: "panic escaped an API call during the run".into() }, Extra::None));
         return out;
     }
     if let Some(v) = ex.viols.first() {
-        out.viol = Some((v.clone(), None));
+        out.viol = Some((v.clone(), Extra::None));
         return out;
     }
     if engine == Engine::Crash {
         let pts: Vec<CrashPoint> = match only {
-            Some(p) => vec![p.clone()],
+            Some(Extra::Crash(p)) => vec![p.clone()],
+            Some(_) => vec![],
             None => {
                 let mut rng = Rng::new(crash_seed);
                 draw_points(&mut rng, &ex.lifetimes, images)
@@ -163,7 +192,7 @@ pub fn execute(plan: &Plan, engine: Engine, crash_seed: u64, images: usize, only
             let post = only.is_some() || n % 4 == 0;
             let v = eval_point(&plan.cfg, cache, &ex.lifetimes, &ex.versions, pt, &mut out.crash, post);
             if let Some(v) = v.first() {
-                out.viol = Some((v.clone(), Some(pt.clone())));
+                out.viol = Some((v.clone(), Extra::Crash(pt.clone())));
                 break;
             }
         }
@@ -179,26 +208,26 @@ fn same_class(a: &Viol, b: &Viol) -> bool {
 pub fn minimise(rep: &Replay, engine: Engine, images: usize, max_secs: u64) -> Replay {
     let start = Instant::now();
     let mut best = rep.clone();
-    let check = |plan: &Plan, pt: &Option<CrashPoint>| -> Option<(Viol, Option<CrashPoint>)> {
-        // first try the same crash point, then a fresh search
-        if engine == Engine::Crash {
-            if let Some(p) = pt {
-                let o = execute(plan, engine, 0, 0, Some(p));
-                if let Some((v, p2)) = o.viol
+    let check = |plan: &Plan, ex: &Extra| -> Option<(Viol, Extra)> {
+        // first try the same crash point / fault case, then a fresh search
+        if engine != Engine::Conf {
+            if *ex != Extra::None {
+                let o = execute(plan, engine, 0, 0, Some(ex));
+                if let Some((v, e2)) = o.viol
                     && same_class(&v, &rep.expect)
                 {
-                    return Some((v, p2.or(pt.clone())));
+                    return Some((v, if e2 == Extra::None { ex.clone() } else { e2 }));
                 }
             }
             let o = execute(plan, engine, mix(rep.seed, rep.run) ^ 0x5eed, images, None);
             match o.viol {
-                Some((v, p2)) if same_class(&v, &rep.expect) => Some((v, p2)),
+                Some((v, e2)) if same_class(&v, &rep.expect) => Some((v, e2)),
                 _ => None,
             }
         } else {
             let o = execute(plan, engine, 0, 0, None);
             match o.viol {
-                Some((v, p2)) if same_class(&v, &rep.expect) => Some((v, p2)),
+                Some((v, e2)) if same_class(&v, &rep.expect) => Some((v, e2)),
                 _ => None,
             }
         }
@@ -212,10 +241,10 @@ pub fn minimise(rep: &Replay, engine: Engine, images: usize, max_secs: u64) -> R
             i -= 1;
             let mut cand = best.plan.clone();
             cand.steps.remove(i);
-            if let Some((v, p)) = check(&cand, &best.crash) {
+            if let Some((v, e)) = check(&cand, &best.extra) {
                 best.plan = cand;
                 best.expect = v;
-                best.crash = p;
+                best.extra = e;
                 progress = true;
             }
         }
@@ -237,50 +266,85 @@ pub fn minimise(rep: &Replay, engine: Engine, images: usize, max_secs: u64) -> R
                     }
                     _ => {}
                 }
-                if let Some((v, p)) = check(&cand, &best.crash) {
+                if let Some((v, e)) = check(&cand, &best.extra) {
                     best.plan = cand;
                     best.expect = v;
-                    best.crash = p;
+                    best.extra = e;
                     progress = true;
                 }
             }
         }
         // 3. simplify the crash choice
-        if let Some(p) = best.crash.clone() {
-            for simpler in [crate::disk::CrashChoice::AllKept, crate::disk::CrashChoice::NoneKept] {
-                if p.choice == simpler {
-                    break;
+        let simpler_choices = [crate::disk::CrashChoice::AllKept, crate::disk::CrashChoice::NoneKept];
+        match best.extra.clone() {
+            Extra::Crash(p) => {
+                let mut cands = vec![];
+                for c in simpler_choices.iter() {
+                    if p.choice == *c {
+                        break;
+                    }
+                    let mut p2 = p.clone();
+                    p2.choice = c.clone();
+                    p2.nested.clear();
+                    cands.push(p2);
                 }
-                let mut p2 = p.clone();
-                p2.choice = simpler;
-                p2.nested.clear();
-                let o = execute(&best.plan, engine, 0, 0, Some(&p2));
-                if let Some((v, _)) = o.viol
-                    && same_class(&v, &rep.expect)
-                {
-                    best.crash = Some(p2);
-                    best.expect = v;
-                    progress = true;
-                    break;
+                if !p.nested.is_empty() {
+                    let mut p2 = p.clone();
+                    p2.nested.clear();
+                    cands.push(p2);
+                }
+                for p2 in cands {
+                    let e2 = Extra::Crash(p2);
+                    let o = execute(&best.plan, engine, 0, 0, Some(&e2));
+                    if let Some((v, _)) = o.viol
+                        && same_class(&v, &rep.expect)
+                    {
+                        best.extra = e2;
+                        best.expect = v;
+                        progress = true;
+                        break;
+                    }
                 }
             }
-            if let Some(p) = best.crash.clone()
-                && !p.nested.is_empty()
-            {
-                let mut p2 = p.clone();
-                p2.nested.clear();
-                let o = execute(&best.plan, engine, 0, 0, Some(&p2));
-                if let Some((v, _)) = o.viol
-                    && same_class(&v, &rep.expect)
-                {
-                    best.crash = Some(p2);
-                    best.expect = v;
-                    progress = true;
+            Extra::Fault(f) => {
+                for c in simpler_choices.iter() {
+                    if f.choice == *c {
+                        break;
+                    }
+                    let mut f2 = f.clone();
+                    f2.choice = c.clone();
+                    let e2 = Extra::Fault(f2);
+                    let o = execute(&best.plan, engine, 0, 0, Some(&e2));
+                    if let Some((v, _)) = o.viol
+                        && same_class(&v, &rep.expect)
+                    {
+                        best.extra = e2;
+                        best.expect = v;
+                        progress = true;
+                        break;
+                    }
                 }
             }
+            Extra::None => {}
         }
     }
     best
+}
+
+pub fn engine_of(name: &str) -> Engine {
+    match name {
+        "crash" => Engine::Crash,
+        "fault" => Engine::Fault,
+        _ => Engine::Conf,
+    }
+}
+
+pub fn engine_name(e: Engine) -> &'static str {
+    match e {
+        Engine::Conf => "conf",
+        Engine::Crash => "crash",
+        Engine::Fault => "fault",
+    }
 }
 
 pub fn replay_file(path: &str) -> i32 {
@@ -295,15 +359,15 @@ pub fn replay_file(path: &str) -> i32 {
             return 2;
         }
     };
-    let engine = if rep.engine == "crash" { Engine::Crash } else { Engine::Conf };
-    let o = execute(&rep.plan, engine, 0, 0, rep.crash.as_ref());
+    let engine = engine_of(&rep.engine);
+    let only = if rep.extra == Extra::None { None } else { Some(&rep.extra) };
+    let o = execute(&rep.plan, engine, 0, 0, only);
+    for k in &o.known {
+        println!("{k}");
+    }
     match o.viol {
         Some((v, _)) => {
             println!("replayed: property={} tag={} detail={}", v.prop, v.tag, v.detail);
-            if let Some(k) = known_finding(&v) {
-                println!("KNOWN-FINDING: property={} {}", v.prop, k);
-                return 0;
-            }
             println!("VIOLATION property={} replay={}", v.prop, path);
             1
         }
@@ -312,6 +376,107 @@ pub fn replay_file(path: &str) -> i32 {
             0
         }
     }
+}
+
+/// C08: for one history, make the k-th backend call after creation fail (once or for good, with
+/// an optional partially applied write), for every k; then judge what survived.
+pub fn execute_fault(plan: &Plan, seed: u64, max_cases: usize, only: Option<&Extra>) -> RunOut {
+    use crate::disk::{CrashChoice, CrashWalker, Fault};
+    let mut out = RunOut {
+        viol: None,
+        exec: ExecStats::default(),
+        disk: Default::default(),
+        crash: CrashStats::default(),
+        hash: 0,
+        lifetimes: 0,
+        harness_panic: false,
+        known: vec![],
+    };
+    // baseline: count the backend calls of the fault-free history
+    let mut base = Exec::new(plan.cfg.clone(), Mode::Strict);
+    base.fault_plan = Some(vec![]);
+    let r = catch_unwind(AssertUnwindSafe(|| {
+        base.run(plan);
+        base.finish();
+    }));
+    out.known.extend(base.known.iter().cloned());
+    if r.is_err() || !base.viols.is_empty() {
+        if let Some(v) = base.viols.first() {
+            out.viol = Some((v.clone(), Extra::None));
+        } else {
+            out.viol = Some((Viol { prop: "C08".into(), tag: "panic".into(), detail: "panic in the fault-free baseline".into() }, Extra::None));
+        }
+        add_exec(&mut out.exec, &base.stats);
+        return out;
+    }
+    let n = base.calls_counted;
+    out.hash = base.oplog_hash;
+    add_exec(&mut out.exec, &base.stats);
+    add_disk(&mut out.disk, &base.disk_stats);
+    let mut rng = Rng::new(seed);
+    let cases: Vec<FaultCase> = match only {
+        Some(Extra::Fault(f)) => vec![f.clone()],
+        Some(_) => vec![],
+        None => {
+            let mut ks: Vec<u64> = (0..n).collect();
+            if ks.len() > max_cases {
+                // keep an evenly spread sample plus random ones
+                let mut pick = std::collections::BTreeSet::new();
+                while pick.len() < max_cases {
+                    pick.insert(rng.below(n));
+                }
+                ks = pick.into_iter().collect();
+            }
+            let mut v = vec![];
+            for k in ks {
+                let partial = if rng.chance(1, 3) { rng.below(1000) as u16 } else { 0 };
+                let choice = match rng.below(4) {
+                    0 => CrashChoice::AllKept,
+                    1 => CrashChoice::NoneKept,
+                    _ => CrashChoice::Random(rng.next()),
+                };
+                v.push(FaultCase { fault: Fault { index: k, permanent: rng.chance(1, 2), partial_permille: partial }, choice });
+            }
+            v
+        }
+    };
+    for case in cases {
+        let mut ex = Exec::new(plan.cfg.clone(), Mode::Strict);
+        ex.keep_lifetimes = true;
+        ex.fault_plan = Some(vec![case.fault.clone()]);
+        let r = catch_unwind(AssertUnwindSafe(|| {
+            ex.run(plan);
+            ex.finish();
+        }));
+        out.crash.images += 1;
+        add_disk(&mut out.disk, &ex.disk_stats);
+        out.exec.io_errors_reported += ex.stats.io_errors_reported;
+        out.exec.refused_after_error += ex.stats.refused_after_error;
+        out.known.extend(ex.known.iter().cloned());
+        if r.is_err() {
+            out.viol = Some((Viol { prop: "C08".into(), tag: "panic".into(), detail: format!("panic escaped with fault {:?}", case.fault) }, Extra::Fault(case)));
+            return out;
+        }
+        if let Some(v) = ex.viols.first() {
+            out.viol = Some((v.clone(), Extra::Fault(case)));
+            return out;
+        }
+        // the surviving storage, in a crash state, must reopen to an admissible commit point
+        let Some(life) = ex.lifetimes.last() else { continue };
+        let mut w = CrashWalker::new(life.base.clone(), &life.log);
+        w.advance_to(life.log.len());
+        let (image, _) = w.image(&case.choice);
+        let rec = crate::crash::recover_and_check(&plan.cfg, plan.cfg.cache, image, &ex.versions, &ex.allowed, seed, false, false);
+        if let Some(v) = rec.viols.first() {
+            let mut v = v.clone();
+            if v.prop == "C01" {
+                v.prop = "C08".into();
+            }
+            out.viol = Some((v, Extra::Fault(case)));
+            return out;
+        }
+    }
+    out
 }
 
 /// known findings file: /verif/known_findings.json (read-only at run time)
@@ -345,7 +510,7 @@ pub fn explore(o: &Opts) -> i32 {
     let stop = AtomicBool::new(false);
     let agg = Mutex::new(Agg::default());
     let hashes = Mutex::new(BTreeSet::<u64>::new());
-    let found = Mutex::new(Vec::<(u64, Viol, Option<CrashPoint>)>::new());
+    let found = Mutex::new(Vec::<(u64, Viol, Extra)>::new());
     let known = Mutex::new(BTreeSet::<String>::new());
     let samples = Mutex::new(Vec::<serde_json::Value>::new());
     std::thread::scope(|s| {
@@ -405,8 +570,7 @@ pub fn explore(o: &Opts) -> i32 {
     let mut violations = 0;
     if let Some((i, v, pt)) = found.first().cloned() {
         violations = 1;
-        let engine_name = if o.engine == Engine::Crash { "crash" } else { "conf" };
-        let rep = Replay { property: v.prop.clone(), engine: engine_name.into(), seed: o.seed, run: i, plan: plan_for(o.seed, i, &o.prop), crash: pt, expect: v.clone() };
+        let rep = Replay { property: v.prop.clone(), engine: engine_name(o.engine).into(), seed: o.seed, run: i, plan: plan_for(o.seed, i, &o.prop), extra: pt, expect: v.clone() };
         let min_secs = if o.tier == "thorough" { 600 } else { 60 };
         let min = minimise(&rep, o.engine, o.images_per_run.max(50), min_secs);
         let dir = std::env::var("VERIF_REPLAY_DIR").unwrap_or("/verif/replays".into());
@@ -415,7 +579,7 @@ pub fn explore(o: &Opts) -> i32 {
         let path = format!("{dir}/{}-{}-{:08x}.json", min.expect.prop, o.seed, h as u32);
         std::fs::write(&path, serde_json::to_string_pretty(&min).unwrap()).unwrap();
         // verify that the replay reproduces in this process (the driver re-checks in a fresh one)
-        let again = execute(&min.plan, o.engine, 0, 0, min.crash.as_ref());
+        let again = execute(&min.plan, o.engine, 0, 0, if min.extra == Extra::None { None } else { Some(&min.extra) });
         let ok = again.viol.as_ref().is_some_and(|(v2, _)| same_class(v2, &min.expect));
         println!("violation: run={i} property={} tag={} detail={}", min.expect.prop, min.expect.tag, min.expect.detail);
         if ok {
@@ -435,7 +599,7 @@ pub fn explore(o: &Opts) -> i32 {
         "property_id": o.prop,
         "tier": o.tier,
         "seed": o.seed,
-        "level": "exploration",
+        "level": if o.engine == Engine::Fault { "fault_enumeration" } else { "exploration" },
         "wall_s": wall,
         "violations": violations,
         "coverage": {
@@ -469,7 +633,24 @@ pub fn explore(o: &Opts) -> i32 {
 }
 
 pub fn cli(args: &[String]) -> i32 {
-    std::panic::set_hook(Box::new(|_| {}));
+    // glibc serves every ~1 MiB image buffer with mmap/munmap by default, which serialises the
+    // worker threads in the kernel; keep such buffers on the heap instead (25x throughput).
+    if std::env::var_os("MALLOC_MMAP_THRESHOLD_").is_none() {
+        use std::os::unix::process::CommandExt;
+        let exe = std::env::current_exe().unwrap();
+        let err = std::process::Command::new(exe)
+            .args(args)
+            .env("MALLOC_MMAP_THRESHOLD_", "33554432")
+            .env("MALLOC_TRIM_THRESHOLD_", "268435456")
+            .env("MALLOC_TOP_PAD_", "67108864")
+            .exec();
+        eprintln!("re-exec failed: {err}");
+        return 2;
+    }
+    std::panic::set_hook(Box::new(|info| {
+        let msg = info.to_string();
+        LAST_PANIC.with(|p| *p.borrow_mut() = msg.chars().take(400).collect());
+    }));
     let get = |k: &str| args.iter().position(|a| a == k).and_then(|i| args.get(i + 1)).cloned();
     match args.first().map(|s| s.as_str()) {
         Some("replay") => replay_file(args.get(1).map(|s| s.as_str()).unwrap_or("")),
@@ -477,10 +658,7 @@ pub fn cli(args: &[String]) -> i32 {
             let prop = get("--prop").unwrap_or("C04".into());
             let tier = get("--tier").unwrap_or("quick".into());
             let seed = std::env::var("VERIF_SEED").ok().and_then(|s| s.parse().ok()).unwrap_or(DEFAULT_SEED);
-            let engine = match get("--engine").as_deref() {
-                Some("crash") => Engine::Crash,
-                _ => Engine::Conf,
-            };
+            let engine = engine_of(get("--engine").as_deref().unwrap_or("conf"));
             let o = Opts {
                 prop,
                 engine,
@@ -492,6 +670,41 @@ pub fn cli(args: &[String]) -> i32 {
                 tier,
             };
             explore(&o)
+        }
+        Some("dumpimage") => {
+            // writes the final (cleanly closed) storage image of one run plus the model's contents
+            let prop = get("--prop").unwrap_or("C04".into());
+            let seed = std::env::var("VERIF_SEED").ok().and_then(|s| s.parse().ok()).unwrap_or(DEFAULT_SEED);
+            let run: u64 = get("--run").and_then(|s| s.parse().ok()).unwrap_or(0);
+            let out = get("--out").unwrap_or("/tmp/image".into());
+            let plan = plan_for(seed, run, &prop);
+            let mut ex = Exec::new(plan.cfg.clone(), Mode::Strict);
+            ex.run(&plan);
+            ex.finish();
+            if !ex.viols.is_empty() {
+                eprintln!("run had violations: {:?}", ex.viols);
+                return 1;
+            }
+            let img = ex.disk.st().live.clone();
+            std::fs::write(format!("{out}.bin"), &img).unwrap();
+            let st = ex.state().clone();
+            let obs = crate::obs::expected_obs(&st.tables);
+            let hex = |b: &[u8]| b.iter().map(|x| format!("{x:02x}")).collect::<String>();
+            let kb = |k: &crate::plan::KeyVal| hex(&crate::model::key_bytes(k));
+            let mut tables = serde_json::Map::new();
+            for (name, t) in obs.iter() {
+                let v = match t {
+                    crate::obs::ObsTable::T(kind, rows) => json!({"kind": format!("{kind:?}"), "multimap": false,
+                        "entries": rows.iter().map(|(k, v)| json!([kb(k), match v { crate::types::OV::B(b) => hex(b), crate::types::OV::U(u) => hex(&u.to_le_bytes()) }])).collect::<Vec<_>>()}),
+                    crate::obs::ObsTable::M(kind, rows) => json!({"kind": format!("{kind:?}"), "multimap": true,
+                        "entries": rows.iter().map(|(k, vs)| json!([kb(k), vs.iter().map(|v| kb(v)).collect::<Vec<_>>()])).collect::<Vec<_>>()}),
+                };
+                tables.insert(name.clone(), v);
+            }
+            let exp = json!({"cfg": plan.cfg, "tables": tables, "persistent_savepoints": st.psp.keys().collect::<Vec<_>>()});
+            std::fs::write(format!("{out}.json"), serde_json::to_string_pretty(&exp).unwrap()).unwrap();
+            println!("wrote {out}.bin ({} bytes) and {out}.json", img.len());
+            0
         }
         Some("dump") => {
             let prop = get("--prop").unwrap_or("C04".into());
